@@ -6,6 +6,7 @@ pub mod s_intervals;
 pub mod tygen;
 pub mod s_dtype;
 pub mod s_hier;
+pub mod s_print;
 pub mod s_rules;
 pub mod ir;
 pub mod exec;
@@ -42,6 +43,7 @@ fn streams() -> Vec<(&'static str, GenFn, EvalFn)> {
         ("dtype", s_dtype::gen, s_dtype::eval),
         ("hier", s_hier::gen_hier, s_hier::eval_hier),
         ("hierops", s_hier::gen_hierops, s_hier::eval_hierops),
+        ("exprprint", s_print::gen, s_print::eval),
         ("scope", s_hier::gen_scope, s_hier::eval_scope),
         ("rules", s_rules::gen, s_rules::eval),
         ("sdpartial", s_rules::gen_sdpartial, s_rules::eval_sdpartial),
